@@ -240,3 +240,83 @@ def fn0_probe(module, local):
     for part_ in local.split("."):
         f = getattr(f, part_)
     return f
+
+
+# ------------------------------------------------------------------------------------------------
+class RandomModel(dict):
+    """a 'model' that answers every question the Builder asks with a random value of the asked type
+    (memoised, so that one input is consistent)"""
+
+    def __init__(self, rng):
+        super().__init__()
+        self.rng = rng
+
+    def get(self, k, default=None):
+        if k not in self:
+            r = self.rng
+            if isinstance(default, bool):
+                self[k] = r.random() < 0.5
+            elif isinstance(default, int):
+                self[k] = r.choice([0, 0, 1, 2, 3, 7, 100, 16383, 16384, 16385, 32767, 32768, 32769, 40000, r.randrange(0, 70000)])
+            elif isinstance(default, str):
+                self[k] = r.choice(["", "a", "HEAD", "GET", "x-y", "A b", ":", "13", "websocket"])
+            else:
+                self[k] = default
+        return self[k]
+
+
+def crosscheck_unit(unit: str, proved_names, tries: int = 60) -> Dict[str, Any]:
+    """Encoder cross-check (thorough tier): the unit's *proved* postconditions are evaluated on
+    real executions of the real function under CPython, on random inputs that satisfy its
+    preconditions.  A proved clause that is false on a real run means the encoding (or the clause
+    evaluator) does not describe CPython: the checker is wrong, never the code (exit 3)."""
+    from .contracts import REG
+    from .rules import clause_mentions_traces
+
+    fc = REG.fns[unit]
+    local = unit.split(":")[1]
+    out = {"unit": unit, "executed": 0, "clauses": 0, "disagreements": []}
+    rng = random.Random(int(os.environ.get("VERIF_SEED", "0") or 0) * 104729 + sum(map(ord, unit)))
+    clauses = [cl for cl in fc.ensures if f"{local}.{cl.name}" in proved_names and not clause_mentions_traces(cl) and "local(" not in cl.text and "call_" not in cl.text]
+    if "." not in local and fc.modifies == [] and fc.effect == "atomic":
+        # module level pure function: type-directed inputs (strings, header lists ...)
+        try:
+            r = falsify_typed(unit, None, tries=tries * 3)
+        except CannotReplay as e:
+            out["skipped"] = str(e)
+            return out
+        out["executed"] = r.get("executed", r.get("tries", 0))
+        out["clauses"] = len(clauses)
+        if r.get("clause_violated") and f"{local}.{r.get('violated_clause')}" in proved_names:
+            out["disagreements"].append({"clause": r.get("violated_clause"), "inputs": r.get("inputs"), "result": r.get("result")})
+        return out
+    if fc.effect != "atomic":
+        out["skipped"] = "not declared atomic: never run natively"
+        return out
+
+    class Ob:
+        pass
+
+    for cl in clauses:
+        ran = 0
+        for _ in range(tries):
+            ob = Ob()
+            ob.name = f"{local}.{cl.name}"
+            try:
+                r = native_replay(unit, ob, model=RandomModel(rng), check_pre=True)
+            except CannotReplay as e:
+                out.setdefault("skipped_clauses", {})[cl.name] = str(e)[:160]
+                break
+            except Exception as e:  # the harness, not the code
+                out.setdefault("skipped_clauses", {})[cl.name] = "harness: " + repr(e)[:160]
+                break
+            if r.get("skipped"):
+                continue
+            ran += 1
+            if r.get("clause_violated"):
+                out["disagreements"].append({"clause": cl.name, "inputs": r.get("inputs"), "outcome": r.get("outcome"), "result": r.get("result")})
+                break
+        if ran:
+            out["clauses"] += 1
+            out["executed"] += ran
+    return out
